@@ -1023,6 +1023,12 @@ impl Server {
     fn process_frame(&mut self, frame: RespFrame, conn_id: u64) -> Result<RespFrame> {
         let result = match &frame {
             RespFrame::Array(Some(parts)) if !parts.is_empty() => {
+                // A request is an array of bulk strings. Any other element is a protocol error and is
+                // refused here, before a handler has applied the arguments in front of it
+                if parts.iter().any(|part| !matches!(part, RespFrame::BulkString(Some(_)))) {
+                    return Ok(RespFrame::error("ERR Protocol error: a request is an array of bulk strings"));
+                }
+                
                 // Extract command name
                 let cmd_frame = &parts[0];
                 let command = match cmd_frame {
